@@ -135,4 +135,8 @@ def run(prog, ctx):
     x2(prog, ctx)
     from . import x1_pairs
     x1_pairs.run(prog, ctx)
+    ctx.rule("X4", "strand decision table (rule N6 of C04): StrandDetector.get_strand / get_clean_strand answer the opposite strand for the "
+                   "mirrored case (forward <-> reverse canonical sites, polyA <-> polyT), over all small cases")
+    from . import c04 as _c04
+    _c04.strand_table(prog, ctx, "X4")
     ctx.assume("translation equivariance and all value-level equivariance are runtime-valued and not decided")
